@@ -39,10 +39,13 @@ def file_pool():
     return sorted(out)
 
 
-def op_strategy(files):
+def op_strategy(files, generated=()):
     plain = gv.strat("v", False, False).map(lambda t: gv.expand(gv.resolve(t, [])))
     small = st.one_of(st.integers(-5, 5).map(lambda n: ["i", str(n)]), st.just(["T", [["i", "1"], ["t", "6162"]]]), plain)
     f = st.sampled_from(files)
+    if generated:
+        # the generated files are there for what only they reach: drawn as often as all corpus files together
+        f = st.one_of(f, st.sampled_from(sorted(generated)))
     return st.one_of(
         f.map(lambda p: {"k": "load", "f": p}),
         st.tuples(f, st.sampled_from([10, 30, 50, 70, 90, 99])).map(lambda p: {"k": "load_cut", "f": p[0], "cut": p[1]}),
@@ -95,6 +98,27 @@ class C18:
             with open(os.path.join(ctx.scratch, name), "wb") as f:
                 f.write(rw.unhx(r["header"]) + rw.unhx(r["payload"]))
             out.append("@" + name)
+        # integer constants of > 4300 digits (Python 2 long / Python 3 int): the host's int->str limit is process-wide state
+        for v, lit in (("2.7", "x = 0x" + "f" * 5000 + "\ny = 12345678901234567890\n"), ("3.9", "x = 0x" + "f" * 5000 + "\ny = (x, 'z')\n"),
+                       ("3.12", "x = 0x" + "e" * 4000 + "\n")):
+            r = ctx.pool.ref(v).call("compile", src=lit, dis=False, filename="hugeint.py")
+            name = "gen/hugeint_%s.pyc" % v.replace(".", "")
+            with open(os.path.join(ctx.scratch, name), "wb") as f:
+                f.write(rw.unhx(r["header"]) + rw.unhx(r["payload"]))
+            out.append("@" + name)
+        # files of interim (alpha / beta) releases: recognised, and refused with a message - every time
+        import struct
+        for magic, donor, hl in ((3330, "bytecode_3.5", 12), (3280, "bytecode_3.4", 12), (62111, "bytecode_2.5", 8), (3141, "bytecode_3.1", 8)):
+            dd = os.path.join(pd.CORPUS_DIR, donor)
+            small = sorted((os.path.getsize(os.path.join(dd, n)), n) for n in os.listdir(dd) if n.endswith(".pyc"))
+            if not small:
+                continue
+            data = open(os.path.join(dd, small[0][1]), "rb").read()
+            name = "gen/interim_%d.pyc" % magic
+            with open(os.path.join(ctx.scratch, name), "wb") as f:
+                f.write(struct.pack("<H", magic) + data[2:])
+            out.append("@" + name)
+        self.generated = out
         return out
 
     def fresh(self, ctx, host, op):
@@ -182,7 +206,7 @@ class C18:
     def bulk(self, ctx, runner):
         prop = self
         b = self.budgets[ctx.tier]
-        ops = op_strategy(self.files)
+        ops = op_strategy(self.files, getattr(self, "generated", ()))
         hseed = int(h8("%s|%d|%d" % (self.id, ctx.seed, ctx.shard)), 16) % (2 ** 63)
 
         class History(RuleBasedStateMachine):
